@@ -37,6 +37,11 @@ type EncryptionSession struct {
 	inCipher  cipher.AEAD
 	outCipher cipher.AEAD
 
+	// Next incoming key and cipher, prepared when an incoming frame indicates a
+	// key rollover. They are put to use when such a frame is authenticated.
+	nextInKey    []byte
+	nextInCipher cipher.AEAD
+
 	// Replay Attack Mitigation
 	prioSeqHandler *SequenceHandler
 	reglSeqHandler *SequenceHandler
@@ -192,6 +197,9 @@ func (s *EncryptionSession) initFinalize(reverse bool, keyContext string) error 
 		s.outCipher = c1
 	}
 
+	s.nextInKey = nil
+	s.nextInCipher = nil
+
 	// Reset sequence handlers.
 	s.prioSeqHandler.Reset()
 	s.reglSeqHandler.Reset()
@@ -259,13 +267,14 @@ func (s *EncryptionSession) In(seqNum uint32, prio bool) (
 		if sh.rolloverIndicated(seqNum) {
 			return nil, errors.New("prio sequence handler requested key rollover")
 		}
-	} else if sh.RolloverRequired(seqNum) {
-		// A new incoming key restarts the priority receive window.
-		// The outgoing priority sequence belongs to the (unchanged) outgoing key.
-		s.prioSeqHandler.ResetIn()
-		if err := s.rolloverInKey(); err != nil {
+	} else if sh.rolloverIndicated(seqNum) {
+		// The sequence number indicates a key rollover, but the frame is not
+		// authenticated yet: only prepare the next key and return its cipher.
+		// The rollover is executed by Check(), after authentication.
+		if err := s.prepareNextInKey(); err != nil {
 			return nil, fmt.Errorf("rollover in key: %w", err)
 		}
+		return s.nextInCipher, nil
 	}
 
 	return s.inCipher, nil
@@ -311,15 +320,19 @@ func (s *EncryptionSession) Out(prio bool) (
 	return seqNum, ack, recvRate, s.outCipher, nil
 }
 
-// rolloverInKey rolls over the incoming encryption key.
-func (s *EncryptionSession) rolloverInKey() error {
+// prepareNextInKey derives the next incoming encryption key, if not yet done.
+func (s *EncryptionSession) prepareNextInKey() error {
+	if s.nextInCipher != nil {
+		return nil
+	}
+
 	newKey, newCipher, err := rolloverKey(s.inKey)
 	if err != nil {
 		return err
 	}
 
-	s.inKey = newKey
-	s.inCipher = newCipher
+	s.nextInKey = newKey
+	s.nextInCipher = newCipher
 	return nil
 }
 
@@ -336,10 +349,23 @@ func (s *EncryptionSession) rolloverOutKey() error {
 }
 
 // Check checks the given sequence number and returns an error if there is an issue.
+// It must only be called for authenticated frames: it executes the incoming key
+// rollover that the sequence number of a regular frame indicates.
 func (s *EncryptionSession) Check(seqNum uint32, prio bool) error {
 	if prio {
 		return s.prioSeqHandler.Check(seqNum)
 	}
+
+	s.lock.Lock()
+	if s.nextInCipher != nil && s.reglSeqHandler.RolloverRequired(seqNum) {
+		// A new incoming key restarts the priority receive window.
+		// The outgoing priority sequence belongs to the (unchanged) outgoing key.
+		s.prioSeqHandler.ResetIn()
+		s.inKey, s.inCipher = s.nextInKey, s.nextInCipher
+		s.nextInKey, s.nextInCipher = nil, nil
+	}
+	s.lock.Unlock()
+
 	return s.reglSeqHandler.Check(seqNum)
 }
 
